@@ -411,3 +411,11 @@ CHECKS["C10"]["fuzz"] = [{"target": "FuzzC10", "time": "60s"}]
 CHECKS["C11"]["fuzz"] = [{"target": "FuzzC11", "time": "90s"}]
 CHECKS["C12"]["fuzz"] = [{"target": "FuzzC12", "time": "60s"}]
 CHECKS["C20"]["fuzz"] = [{"target": "FuzzC20", "time": "60s"}]
+
+CHECKS["C13"]["quick"]["tests"].append({"test": "TestC13Wrap", "checks": 500, "subchecks": KINDS7})
+CHECKS["C13"]["thorough"]["tests"].append({"test": "TestC13Wrap", "checks": 2000, "subchecks": KINDS7})
+CHECKS["C13"]["rule"] += (" (4) WrappedParser.Reset: a wrapped parser used on one reader for 0..12 calls and then Reset to another "
+                          "reader emits the same block sequence as a new wrapped parser on that reader.")
+
+CHECKS["C20"]["rule"] += (" (1b) interleaving: with a second configuration marshalled, parsed and rejected in between, "
+                          "ParseJSON(json.Marshal(&cfg)) still yields cfg (the result does not depend on other JSON operations).")
